@@ -132,6 +132,12 @@ def cases(rng):
         out.append(('fn f()\n{\n\tvar m: [%d]i32 = [%s];\n\tvar q: &[%d]i32 = &m;\n}\n' % (la, ', '.join('1' for _ in range(la)), lb),
                     'reject:504', 'address of a [%d]i32 stored in a variable of type &[%d]i32' % (la, lb)))
     out.append(('fn g(p: &[3]i32)\n{\n}\n\nfn f()\n{\n\tvar m: [3]i32 = [1, 1, 1];\n\tg(&m);\n}\n', 'accept', 'address of a [3]i32 passed for &[3]i32'))
+    # unary minus on a LITERAL: negation is defined on signed integers only, whatever the magnitude or the spelling of the literal
+    for lit, ty, exp in [('5u32', 'u32', 'reject:550'), ('170141183460469231731687303715884105728u128', 'u128', 'reject:550'),
+                         ('170141183460469231731687303715884105727u128', 'u128', 'reject:550'), ('0x80000000000000000000000000000000', 'u128', 'reject:550'),
+                         ('0x7F', 'u8', 'reject:550'), ('255u8', 'u8', 'reject:550'), ('128i8', 'i8', 'accept'), ('170141183460469231731687303715884105728i128', 'i128', 'accept'),
+                         ('170141183460469231731687303715884105728', 'i128', 'accept'), ('5', 'i32', 'accept'), ('0b101', 'u8', 'reject:550')]:
+        out.append(('fn f()\n{\n\tvar x: %s = -%s;\n}\n' % (ty, lit), exp, 'unary minus before the literal %s in a context of type %s' % (lit, ty)))
     # bit casts: only between (thin) pointers, or to the identical type; never between an array-view pointer and a pointer
     pre = 'fn first(x: &u8)\n{\n}\n\nfn many(x: &[]u8)\n{\n}\n\nfn g(y: &[]u8, b: &u8)\n{\n\tvar a: i32 = 10;\n\tvar p: &i32 = &a;\n'
     for stmt, exp, what in [
